@@ -754,3 +754,57 @@ pub fn transcript<T: std::hash::Hash>(t: &T) -> Rec {
     t.hash(&mut r);
     r
 }
+
+// ---------------------------------------------------------------- integer classes with a concrete encoded length
+pub fn mk_int_small() -> (OwnedTerm, RV) {
+    let v = vk::u8() as i64;
+    (OwnedTerm::Integer(v), RV::Int(v as i128))
+}
+/// fits INTEGER_EXT but not SMALL_INTEGER_EXT
+pub fn mk_int_i32() -> (OwnedTerm, RV) {
+    let v = vk::i32() as i64;
+    vk::assume(v < 0 || v > 255);
+    (OwnedTerm::Integer(v), RV::Int(v as i128))
+}
+/// i64 outside the i32 range whose magnitude has exactly N significant bytes (4..=8)
+pub fn mk_int_wide<const N: usize>() -> (OwnedTerm, RV) {
+    let v = vk::i64();
+    vk::assume(v < i32::MIN as i64 || v > i32::MAX as i64);
+    let m = (v as i128).unsigned_abs();
+    vk::assume(m < (1u128 << (8 * N)) && m >= (1u128 << (8 * (N - 1))));
+    (OwnedTerm::Integer(v), RV::Int(v as i128))
+}
+
+// ---------------------------------------------------------------- identifiers that fit the legacy encodings
+/// pid whose creation fits PID_EXT's single byte
+pub fn mk_pid_c8() -> (OwnedTerm, RV) {
+    let n = ascii::<1>();
+    let (id, serial, creation) = (vk::u32(), vk::u32(), vk::u8() as u32);
+    (OwnedTerm::Pid(ExternalPid::new(atom_of(&n), id, serial, creation)), RV::Pid(n.to_vec(), id, serial, creation))
+}
+/// port with a 32-bit id (NEW_PORT_EXT)
+pub fn mk_port_32() -> (OwnedTerm, RV) {
+    let n = ascii::<1>();
+    let (id, creation) = (vk::u32() as u64, vk::u32());
+    (OwnedTerm::Port(ExternalPort::new(atom_of(&n), id, creation)), RV::Port(n.to_vec(), id, creation))
+}
+/// port with a 32-bit id and 8-bit creation (PORT_EXT)
+pub fn mk_port_32_c8() -> (OwnedTerm, RV) {
+    let n = ascii::<1>();
+    let (id, creation) = (vk::u32() as u64, vk::u8() as u32);
+    (OwnedTerm::Port(ExternalPort::new(atom_of(&n), id, creation)), RV::Port(n.to_vec(), id, creation))
+}
+/// reference with 8-bit creation (NEW_REFERENCE_EXT)
+pub fn mk_ref_c8<const K: usize>() -> (OwnedTerm, RV) {
+    let n = ascii::<1>();
+    let creation = vk::u8() as u32;
+    let mut ids = [0u32; K];
+    let mut i = 0;
+    while i < K {
+        ids[i] = vk::u32();
+        i += 1;
+    }
+    let mut t = OwnedTerm::Reference(ExternalReference::new(atom_of(&n), creation, ids.to_vec()));
+    pin_word0(&mut t, K as u64);
+    (t, RV::Ref(n.to_vec(), creation, ids.to_vec()))
+}
